@@ -312,6 +312,42 @@ fn check_fragments(v: &Value, frags: &[Frag]) -> Result<u64, String> {
 			&want,
 		)?;
 	}
+	// the kind predicates of a fragment and its direct sub-fragments (forwards and backwards)
+	for (i, (_, f)) in all.iter().enumerate() {
+		let (val_kind, n_sub): (Option<json_syntax::Kind>, usize) = match f {
+			FragmentRef::Value(x) => (
+				Some(x.kind()),
+				match x {
+					Value::Array(a) => a.len(),
+					Value::Object(o) => o.len(),
+					_ => 0,
+				},
+			),
+			FragmentRef::Entry(_) => (None, 2),
+			FragmentRef::Key(_) => (None, 0),
+		};
+		use json_syntax::Kind;
+		let preds = [f.is_null(), f.is_number(), f.is_string(), f.is_array(), f.is_object()];
+		let want = [val_kind == Some(Kind::Null), val_kind == Some(Kind::Number), val_kind == Some(Kind::String), val_kind == Some(Kind::Array), val_kind == Some(Kind::Object)];
+		if preds != want || f.is_value() != val_kind.is_some() {
+			return Err(format!("fragment {}: is_null/is_number/is_string/is_array/is_object = {:?}, the fragment is {:?}", i, preds, frags[i].kind));
+		}
+		let id = |g: &FragmentRef| match g {
+			FragmentRef::Value(x) => (0u8, *x as *const Value as usize),
+			FragmentRef::Entry(x) => (1, *x as *const json_syntax::object::Entry as usize),
+			FragmentRef::Key(x) => (2, *x as *const json_syntax::object::Key as usize),
+		};
+		let fwd: Vec<(u8, usize)> = f.sub_fragments().map(|g| id(&g)).collect();
+		let mut bwd: Vec<(u8, usize)> = f.sub_fragments().rev().map(|g| id(&g)).collect();
+		bwd.reverse();
+		if fwd != bwd || fwd.len() != n_sub {
+			return Err(format!("fragment {}: sub_fragments() yields {} fragments forwards, {} backwards, the fragment has {} direct sub-fragments", i, fwd.len(), bwd.len(), n_sub));
+		}
+		// the first direct sub-fragment is the next fragment of the traversal
+		if n_sub > 0 && all.get(i + 1).map(|(_, g)| id(g)) != fwd.first().copied() {
+			return Err(format!("fragment {}: its first sub-fragment is not fragment {} of the traversal", i, i + 1));
+		}
+	}
 	for k in [0usize, 1, 2, 17] {
 		match v.get_fragment(count + k) {
 			Err(e) if e == k => (),
@@ -670,6 +706,20 @@ fn navigate_with(rep: &mut Report, rd: &mut Reader, fam: &str, text: &str, opts:
 			return Err(format!("walk covered {} fragments of {}", n, frags.len()));
 		}
 		let f = check_fragments(&v, &frags)?;
+		// the views of the code map itself agree with each other
+		{
+			use std::borrow::Borrow;
+			let sl = cm.as_slice();
+			let a: &[json_syntax::code_map::Entry] = cm.as_ref();
+			let b: &[json_syntax::code_map::Entry] = cm.borrow();
+			let by_iter: Vec<_> = cm.iter().map(|(i, e)| (i, *e)).collect();
+			let by_ref: Vec<_> = (&cm).into_iter().map(|(i, e)| (i, *e)).collect();
+			let by_value: Vec<_> = cm.clone().into_iter().collect();
+			let numbered: Vec<_> = sl.iter().copied().enumerate().collect();
+			if a != sl || b != sl || by_iter != numbered || by_ref != numbered || by_value != numbered || cm.len() != sl.len() {
+				return Err("as_slice / as_ref / borrow / iter / into_iter of the code map disagree".into());
+			}
+		}
 		Ok::<u64, String>(cx.checks + f)
 	});
 	match r {
